@@ -454,9 +454,21 @@ Definition put_spec_tuple (o : option (list text)) : val :=
    option = pyramid.predicates.TraversePredicate: traversal_path(generate(pattern, match))).  A value is either a
    str captured by a {name} placeholder (as captured) or the tuple split_path_info('/' + '/'.join(parts)) where
    parts are the decoded texts the value is made from (the remainder; the captures the traverse= pattern names). *)
+(* what a route pattern captured, computed from the decoded PATH_INFO: the text after the literal pieces and the
+   {name} captures that precede a `*stararg` / a trailing {name:.*} placeholder; the k-th '/'-separated piece *)
+Definition route_remainder (decoded : text) (pieces : list text) : option text :=
+  strip_prefix (concat pieces) decoded.
+Definition route_piece (decoded : text) (k : nat) : text := nth k (split_on slash decoded) [].
+
 Definition route_md_value (v : val) : option mval :=
   match v with
   | VT s => Some (MStr s)
+  | VL [VI 1%Z; VT decoded; pieces] =>           (* a *stararg: the remainder, normalised *)
+      olet ps := get_texts pieces in olet rem := route_remainder decoded ps in
+      Some (MTuple (split_path_info (slash :: rem)))
+  | VL [VI 2%Z; VT decoded; pieces] =>           (* a trailing {name:.*}: the remainder as it is *)
+      olet ps := get_texts pieces in olet rem := route_remainder decoded ps in Some (MStr rem)
+  | VL [VI 3%Z; VT decoded; VI k] => Some (MStr (route_piece decoded (Z.to_nat k)))     (* a {name} placeholder *)
   | VL _ => option_map (fun parts => MTuple (split_path_info (slash :: join slash_text parts))) (get_texts v)
   | VI _ => None
   end.
